@@ -74,7 +74,53 @@ async fn connect_pending(pending: &mut Vec<(u64, Shim)>, clients: &mut HashMap<u
     }
 }
 
+/// stim.storm = {errors, fire_at}: the listener goes through a run of transient accept errors (ECONNABORTED: the kind the server retries by
+/// itself); the shutdown signal fires while the run is under way (after `fire_at` errors), and a connection becomes acceptable only once
+/// the run is over.  The accept loop looks at the signal between any two errors, so that connection is never accepted.
+struct Storm { left: u64, fire_at: u64, sig: Option<tokio::sync::oneshot::Sender<()>>, conn: Option<Shim>, log: Rec }
+impl tokio_stream::Stream for Storm {
+    type Item = Result<Shim, std::io::Error>;
+    fn poll_next(mut self: Pin<&mut Self>, _cx: &mut std::task::Context<'_>) -> std::task::Poll<Option<Self::Item>> {
+        if self.left > 0 {
+            self.left -= 1;
+            if self.fire_at > 0 { self.fire_at -= 1; if self.fire_at == 0 {
+                if let Some(t) = self.sig.take() { let _ = t.send(()); }
+                self.log.ev(json!({"e":"step","i":0,"op":"fire","c":0,"k":0,"nb":false,"hold":false}));
+                self.log.ev(json!({"e":"step","i":1,"op":"offer","c":1,"k":0,"nb":false,"hold":false}));
+            } }
+            return std::task::Poll::Ready(Some(Err(std::io::Error::from(std::io::ErrorKind::ConnectionAborted))));
+        }
+        match self.conn.take() { Some(io) => { self.log.ev(json!({"e":"taken","c":1})); std::task::Poll::Ready(Some(Ok(io))) } None => std::task::Poll::Pending }
+    }
+}
+fn run_storm(stim: &Value, rec: &Rec) {
+    let log = rec.clone();
+    let hook_log = rec.clone();
+    let (errors, fire_at) = (stim["storm"]["errors"].as_u64().unwrap_or(400), stim["storm"]["fire_at"].as_u64().unwrap_or(3));
+    tonic::transport::verif_hooks::set_sink(Some(Box::new(move |ev, n| if !ev.starts_with("rc_") { hook_log.ev(json!({"e":"hook","ev":ev,"n":n})) })));
+    block_on_paused(async move {
+        let (c_io, s_io, _d) = Shim::pair(65536, 65536, 65536, 0);
+        let (sig_tx, sig_rx) = tokio::sync::oneshot::channel::<()>();
+        let h = Gated { gates: Arc::new(Mutex::new(HashMap::new())), items: Arc::new(HashMap::new()), log: log.clone() };
+        let incoming = Storm { left: errors, fire_at, sig: Some(sig_tx), conn: Some(s_io), log: log.clone() };
+        let log_s = log.clone();
+        let serve = tokio::spawn(async move {
+            let sig = async move { if sig_rx.await.is_err() { std::future::pending::<()>().await } };
+            let r = tonic::transport::Server::builder().add_service(SvcServer::new(h)).serve_with_incoming_shutdown(incoming, sig).await;
+            log_s.ev(json!({"e":"resolved","ok":r.is_ok()}));
+        });
+        tokio::time::sleep(Duration::from_millis(20)).await;
+        log.ev(json!({"e":"epilogue"}));
+        drop(c_io);
+        tokio::time::sleep(Duration::from_millis(5)).await;
+        log.ev(json!({"e":"final","resolved":serve.is_finished()}));
+        serve.abort();
+    });
+    tonic::transport::verif_hooks::set_sink(None);
+}
+
 pub fn run(stim: &Value, rec: &Rec) {
+    if stim["storm"].is_object() { return run_storm(stim, rec); }
     let log = rec.clone();
     let stim = stim.clone();
     let hook_log = rec.clone();
